@@ -79,4 +79,14 @@ PROPS = {
         "not_modelled": "float implementations (IEEE monotonicity), libm functions, text/date functions, casts, Pointwise/Aggregate/Case/InList/Coalesce combinators, Optional/Extended wrappers: oracle stream only",
         "assumptions": ["row values and constants within i64"],
     },
+    "C10": {
+        "model_targets": ["QV/Corr/C10.vo"],
+        "oracle": "rows sampled from the input type on which Expr::value gives true must be members of DataType::filter(type, predicate); integer columns (also compared with the model) and nullable / float / text / boolean columns",
+        "trusted": [
+            "correspondence: harness/src/c10.rs and QV/Corr/C10.v (narrowed struct compared column by column, up to merging of adjacent integers)",
+            "modelled, not verified: DataType::filter, filter_by_value, filter_by_function, replace (src/expr/mod.rs) on structs of integer columns",
+        ],
+        "not_modelled": "nullable columns (Optional stripping), float / text / date columns, join ON narrowing (filter_by_join_operator): oracle only",
+        "assumptions": [],
+    },
 }
